@@ -36,6 +36,8 @@ U1 = {
     "C19": (["twoaddr"], ["PROPERTY Act_C19", "INVARIANT Inv_C17"]),
     "C20": (["handshake"], ["PROPERTY Act_C20"]),
 }
+# C12: "... and the original Deferreds then complete on the usual acknowledgements" is the completion clause of the publish automaton
+BORROW = {"C12": [("C05", {"C05.not_fired_on_required_ack"}, "C12.resumed_request_not_completed_by_its_acknowledgement")]}
 WALKS = {"quick": 240, "thorough": 4000}
 
 ASSUME = [
@@ -85,10 +87,10 @@ def mc_u1(pid, tier):
 # property -> list of (family, share of the walk budget)
 FAMILIES = {
     "C02": [("mixed", 0.5), ("retry", 0.3), ("persist", 0.3), ("enum:resume", 0), ("enum:handshake", 0)],
-    "C04": [("mixed", 0.5), ("session", 0.3), ("enum:handshake", 0), ("enum:refused", 0), ("enum:deadconnect", 0), ("enum:lossall", 0), ("react", 0.3), ("enum:react", 0)], "C05": [("mixed", 0.6), ("retry", 0.4), ("react", 0.3), ("enum:react", 0)], "C06": [("inbound", 0.6), ("mixed", 0.3), ("session", 0.2), ("enum:inbound2", 0)],
+    "C04": [("mixed", 0.5), ("session", 0.3), ("enum:handshake", 0), ("enum:refused", 0), ("enum:deadconnect", 0), ("enum:lossall", 0), ("react", 0.3), ("enum:react", 0)], "C05": [("mixed", 0.6), ("retry", 0.4), ("enum:resume", 0), ("react", 0.3), ("enum:react", 0)], "C06": [("inbound", 0.6), ("mixed", 0.3), ("session", 0.2), ("enum:inbound2", 0)],
     "C07": [("subs", 0.6), ("mixed", 0.4), ("react", 0.3), ("enum:react", 0)], "C08": [("retry", 0.5), ("mixed", 0.3), ("jitter", 0.3), ("enum:retrygrid", 0), ("enum:resume", 0)], "C09": [("qos2", 0.5), ("wrapq2", 0.4), ("mixed", 0.2), ("session", 0.2), ("enum:ids", 0), ("enum:resume", 0)],
     "C10": [("mixed", 0.5), ("persist", 0.4), ("session", 0.3), ("enum:heldback", 0), ("enum:resume", 0), ("react", 0.3), ("enum:react", 0)], "C11": [("session", 0.7), ("mixed", 0.3), ("enum:refused", 0), ("enum:lossall", 0), ("react", 0.3), ("enum:react", 0)], "C12": [("persist", 0.4), ("wrapsess", 0.3), ("session", 0.3), ("mixed", 0.2), ("enum:refused", 0), ("enum:resume", 0), ("enum:lossall", 0), ("enum:heldback", 0)],
-    "C13": [("mixed", 0.3), ("session", 0.3), ("retry", 0.2), ("keepalive", 0.2), ("jitter", 0.2), ("enum:refused", 0), ("enum:resume", 0), ("enum:lossall", 0), ("react", 0.3), ("enum:react", 0)], "C14": [("mixed", 0.7), ("session", 0.3), ("enum:handshake", 0), ("enum:refstate", 0), ("enum:pktstate", 0), ("react", 0.3), ("enum:react", 0)],
+    "C13": [("mixed", 0.3), ("session", 0.3), ("retry", 0.2), ("keepalive", 0.2), ("jitter", 0.2), ("enum:refused", 0), ("enum:resume", 0), ("enum:lossall", 0), ("react", 0.3), ("enum:react", 0)], "C14": [("mixed", 0.7), ("session", 0.3), ("enum:handshake", 0), ("enum:refstate", 0), ("enum:pktstate", 0), ("enum:heldback", 0), ("react", 0.3), ("enum:react", 0)],
     "C15": [("keepalive", 0.7), ("mixed", 0.3), ("enum:ka2", 0)], "C16": [("enum:inject", 0), ("enum:handshake", 0), ("enum:pktstate", 0), ("mixed", 0.4), ("session", 0.3), ("react", 0.3), ("enum:react", 0)], "C17": [("wrap", 0.5), ("wrapsess", 0.4), ("mixed", 0.2), ("enum:ids", 0), ("react", 0.3), ("enum:react", 0)],
     "C18": [("mixed", 0.4), ("session", 0.4), ("persist", 0.4), ("enum:handshake", 0), ("enum:ids", 0), ("enum:resume", 0), ("enum:heldback", 0), ("react", 0.3), ("enum:react", 0)], "C20": [("enum:args", 0), ("mixed", 0.6)],
 }
@@ -390,6 +392,13 @@ def main(pid, tier, seed, replay=None):
     acc, rej, rmon = run_mon(pid, trace, index, "mon-" + pid)
     if len(acc) + len(rej) != len(idx):
         raise Machinery("TraceMon judged %d+%d of %d traces" % (len(acc), len(rej), len(idx)))
+    # clauses that a property shares with the automaton of another one (the statement of pid includes them) are taken from a
+    # run of that automaton over the same executions
+    for other, clauses, name in BORROW.get(pid, []):
+        acc_o, rej_o, _ = run_mon(other, trace, index, "mon-%s-%s" % (pid, other))
+        for k, v in rej_o.items():
+            if v[3] in clauses and k not in rej:
+                rej[k] = list(v[:3]) + ["%s (%s)" % (name, v[3]), v[4]]; acc.pop(k, None)
     conf_ok, div = (0, []) if pid in ("C03", "C19") else run_conf(w, ("pub", "sub", "both"), "conf-" + pid)
     for d in div[:5]:
         print("NOTE divergence from MqttClient: profile=%s trace=%s line=%s stimulus=%s (%s)" % d)
